@@ -256,7 +256,15 @@ theorem floatLogic_dec_valid (u : Uni) (k : DecFloat) (hk : k.WF) (rest : List C
       rw [String.ofList_toList]; exact (fsuffix_tbl sfx hs).1
     have hsd := fsuffix_nodot hs
     have hsf' : sfx ∈ Generated.floatSuffixes := by simpa using hsf
+    have hgx : ¬ X = [] → goodExponent u X = true := by
+      intro hX
+      cases hx : x with
+      | none => simp [X, hx, ExpPart.renderOpt] at hX
+      | some y =>
+        have := goodExponent_valid u y (hxw y hx)
+        simpa [X, hx, ExpPart.renderOpt] using this
     simp [hsf', hsd]
+    exact hgx
 
 end Norm
 
